@@ -15,7 +15,8 @@ from .c01 import shape_sig, compare_channels
 
 PROP = 'C02'
 LEVEL = 'exploration'
-N = {'quick': 18000, 'thorough': 500000}
+N = {'quick': 18000, 'thorough': 1500000}
+BUDGET = {'quick': 45, 'thorough': 900}
 RULE = ('seeded segment histories (2-12 segments, 1-4 channels) whose per-object header encodings are drawn from '
         '{full, matches-previous, no-data, unlisted} with kTocNewObjList / kTocMetaData on or off, re-ordered '
         're-listings, has-data flipping and property updates; after EVERY appended segment the prefix is read '
@@ -41,6 +42,8 @@ def opts(tier):
     o.big_count_p = 0.0
     o.pad_p = 0.02
     o.nasty_names = 0.05
+    o.short_last_p = 0.03
+    o.equal_shapes_p = 0.15
     return o
 
 
@@ -132,6 +135,101 @@ def generate(rng, tier):
     return case
 
 
+
+# ------------------------------------------------------------------------------ bounded sweep (thorough tier)
+# All header-encoding choice sequences for histories of <= 3 segments over 2 channels (a: int32 x 2 values,
+# b: float64 x 1 value): per segment {no metadata | metadata x kTocNewObjList x per-channel listing in
+# {unlisted, full, matches-previous, no-data}} x chunk count in {0, 1, 2}.  This part is bounded enumeration
+# (stated as such in the evidence); sequences the format forbids or that are ill-formed are skipped.
+SWEEP_LISTINGS = ['unlisted', 'full', 'same', 'none']
+SWEEP_SEG = [('nometa', None, None, None, c) for c in (0, 1, 2)] + [
+    ('meta', nl, la, lb, c) for nl in (True, False) for la in SWEEP_LISTINGS for lb in SWEEP_LISTINGS for c in (0, 1, 2)]
+SWEEP_BASE = len(SWEEP_SEG)
+SWEEP_TOTAL = SWEEP_BASE + SWEEP_BASE ** 2 + SWEEP_BASE ** 3
+SWEEP_NAMES = {'/': [], "/'g'": ['g'], "/'g'/'a'": ['g', 'a'], "/'g'/'b'": ['g', 'b']}
+
+
+def sweep_spec(index):
+    """The spec for sweep index (mixed radix over 1-, 2- and 3-segment histories), or None if ill-formed."""
+    import struct as _st
+    if index < SWEEP_BASE:
+        digits = [index]
+    elif index < SWEEP_BASE + SWEEP_BASE ** 2:
+        i = index - SWEEP_BASE
+        digits = [i // SWEEP_BASE, i % SWEEP_BASE]
+    else:
+        i = index - SWEEP_BASE - SWEEP_BASE ** 2
+        digits = [i // SWEEP_BASE ** 2, (i // SWEEP_BASE) % SWEEP_BASE, i % SWEEP_BASE]
+    spec = {'version': 4713, 'names': dict(SWEEP_NAMES), 'segments': []}
+    counter = [0]
+    active = {}          # path -> has data (after this segment)
+    stated = set()
+    for k, d in enumerate(digits):
+        kind, nl, la, lb, chunks = SWEEP_SEG[d]
+        seg = {'endian': '<', 'layout': 'contiguous', 'chunks': chunks, 'data': {}}
+        if kind == 'nometa':
+            if k == 0:
+                return None
+            seg['meta'] = False
+            seg['new_obj_list'] = False
+        else:
+            seg['meta'] = True
+            seg['new_obj_list'] = nl
+            if nl or k == 0:
+                active = {}
+            listed = []
+            if k == 0:
+                listed.append({'path': '/', 'index': 'none', 'props': []})
+                listed.append({'path': "/'g'", 'index': 'none', 'props': []})
+            for path, choice, t, cnt in (("/'g'/'a'", la, 'i32', 2), ("/'g'/'b'", lb, 'f64', 1)):
+                if choice == 'unlisted':
+                    continue
+                L = {'path': path, 'index': choice, 'props': [['p', 'i32', k]]}
+                if choice == 'full':
+                    L.update(type=t, count=cnt)
+                    stated.add(path)
+                    active[path] = True
+                elif choice == 'same':
+                    if path not in stated:
+                        return None
+                    active[path] = True
+                else:
+                    active[path] = False
+                listed.append(L)
+            seg['listed'] = listed
+        has = [p for p in ("/'g'/'a'", "/'g'/'b'") if active.get(p)]
+        if not has and chunks:
+            return None
+        # data objects in active-list order are decided by the model; provide data for every active data object
+        for path in has:
+            vals = []
+            for _c in range(chunks):
+                if path.endswith("'a'"):
+                    vals.append(_st.pack('<2l', counter[0] + 1, counter[0] + 2))
+                    counter[0] += 2
+                else:
+                    counter[0] += 1
+                    vals.append(_st.pack('<d', counter[0] + 0.5))
+            seg['data'][path] = vals
+        spec['segments'].append(seg)
+    return spec
+
+
+def generate_indexed(run, rng, tier):
+    if tier == 'thorough' and run < SWEEP_TOTAL and not __import__('os').environ.get('VERIF_C02_NO_SWEEP'):
+        spec = sweep_spec(run)
+        ok = spec is not None
+        if ok:
+            try:
+                build(spec)
+            except SpecError:
+                ok = False
+        if not ok:
+            return {'skip': True, 'spec': {'version': 4713, 'names': {'/': []}, 'segments': []}, 'raw_ts': False, 'forbidden': None}
+        return {'spec': spec, 'raw_ts': False, 'forbidden': None, 'sweep': run}
+    return generate(rng, tier)
+
+
 def transitions(res, spec):
     """Reach probes over (previous state x header choice)."""
     state = {}       # path -> 'data' | 'nodata' | 'absent'
@@ -198,6 +296,12 @@ def execute(case):
     res = Result()
     spec = case['spec']
     raw_ts = case['raw_ts']
+    if case.get('skip'):
+        res.sig = ['sweep-skip']
+        res.probe('sweep:ill-formed-or-forbidden-skipped')
+        return res
+    if 'sweep' in case:
+        res.probe('sweep:histories-run')
     res.sig = [shape_sig(spec), case['forbidden']]
     with store(record=False) as st:
         if case['forbidden']:
@@ -305,4 +409,11 @@ def shrink_candidates(case):
 
 
 def sample(case):
-    return {'segments': shape_sig(case['spec']), 'forbidden': case['forbidden']}
+    return {'segments': shape_sig(case['spec']), 'forbidden': case['forbidden'], 'sweep_index': case.get('sweep')}
+
+
+def evidence_extra(tot):
+    done = tot['probes'].get('sweep:histories-run', 0) + tot['probes'].get('sweep:ill-formed-or-forbidden-skipped', 0)
+    return {'bounded_sweep': {'what': 'all header-encoding choice sequences for <= 3 segments x 2 channels x chunk counts {0,1,2}',
+                              'total_indices': SWEEP_TOTAL, 'indices_visited': done, 'complete': done >= SWEEP_TOTAL,
+                              'well_formed_histories_run': tot['probes'].get('sweep:histories-run', 0)}}
